@@ -5,9 +5,14 @@ import (
 	"fmt"
 	"io"
 	"log"
+	"os"
+	"os/exec"
 	"runtime"
+	"strconv"
 	"strings"
+	"sync"
 	"sync/atomic"
+	"syscall"
 	"time"
 	"unicode/utf8"
 
@@ -20,7 +25,152 @@ import (
 	"github.com/evolbioinfo/gotree/tree"
 )
 
-func init() { register("C02", c02) }
+func init() {
+	register("C02", c02)
+	if os.Getenv("C02_CHILD") == "" {
+		return
+	}
+	// Child mode (see c02 below).  A reader that sizes an allocation from a number found in the
+	// input must not be able to take the machine down: the address space of the child process
+	// is capped (4 GiB, or C02_AS_LIMIT_MB).  A runaway allocation then ends the child with
+	// "fatal error: out of memory" (not recoverable in Go); the parent reports that for the case.
+	mb := uint64(4096)
+	if v := os.Getenv("C02_AS_LIMIT_MB"); v != "" {
+		if x, err := strconv.ParseUint(v, 10, 64); err == nil {
+			mb = x
+		}
+	}
+	if mb > 0 {
+		lim := syscall.Rlimit{Cur: mb << 20, Max: mb << 20}
+		_ = syscall.Setrlimit(syscall.RLIMIT_AS, &lim)
+	}
+}
+
+// The handler runs in two processes.  The worker started by the driver (parent) hands every
+// case to a child process (the same binary with C02_CHILD=1, kept alive from case to case,
+// address space capped) and relays its observation.  When the child dies -- fatal error of the
+// Go runtime (out of memory, stack exhaustion, a panic in a goroutine of the code under test)
+// -- or does not answer, the parent reports exactly this case as
+//	((name "process") (class panic|hang) (msg "the reader process died: ..."))
+// and starts a new child for the next case: the worker itself never dies.
+type c02child struct {
+	cmd    *exec.Cmd
+	in     io.WriteCloser
+	out    *bufio.Reader
+	errbuf *c02tail
+}
+
+type c02tail struct {
+	mu  sync.Mutex
+	buf []byte
+}
+
+func (t *c02tail) Write(p []byte) (int, error) {
+	t.mu.Lock()
+	if len(t.buf) < 1<<16 {
+		t.buf = append(t.buf, p...)
+	}
+	t.mu.Unlock()
+	return len(p), nil
+}
+func (t *c02tail) reset() { t.mu.Lock(); t.buf = t.buf[:0]; t.mu.Unlock() }
+func (t *c02tail) fatal() string {
+	t.mu.Lock()
+	defer t.mu.Unlock()
+	for _, l := range strings.Split(string(t.buf), "\n") {
+		if strings.HasPrefix(l, "fatal error:") || strings.HasPrefix(l, "runtime: out of memory") ||
+			strings.HasPrefix(l, "panic:") || strings.HasPrefix(l, "runtime: goroutine stack exceeds") {
+			return l
+		}
+	}
+	return "no message"
+}
+
+var c02kid *c02child
+
+func c02start() (*c02child, error) {
+	cmd := exec.Command(os.Args[0])
+	cmd.Env = append(os.Environ(), "C02_CHILD=1")
+	in, err := cmd.StdinPipe()
+	if err != nil {
+		return nil, err
+	}
+	out, err := cmd.StdoutPipe()
+	if err != nil {
+		return nil, err
+	}
+	tail := &c02tail{}
+	cmd.Stderr = tail
+	if err := cmd.Start(); err != nil {
+		return nil, err
+	}
+	return &c02child{cmd: cmd, in: in, out: bufio.NewReaderSize(out, 1<<20), errbuf: tail}, nil
+}
+
+func (k *c02child) stop() {
+	k.in.Close()
+	if k.cmd.Process != nil {
+		k.cmd.Process.Kill()
+	}
+	k.cmd.Wait()
+}
+
+func c02died(text, class, why string) *Sexp {
+	return L(KV("utf8", B(utf8.ValidString(text))),
+		KV("eps", L(epObs("process", guardRes{class, why}, nil))))
+}
+
+func c02parent(c *Sexp, text string) *Sexp {
+	if c02kid == nil {
+		k, err := c02start()
+		if err != nil {
+			return L(KV("bad", A("cannot start the reader process: "+err.Error())))
+		}
+		c02kid = k
+	}
+	k := c02kid
+	k.errbuf.reset()
+	limit := 60 * time.Second
+	if c.Get("timeout_ms") != nil {
+		limit += 12 * time.Duration(c.Int("timeout_ms")) * time.Millisecond
+	}
+	type ans struct {
+		line string
+		err  error
+	}
+	ch := make(chan ans, 1)
+	go func() {
+		if _, err := io.WriteString(k.in, "C02\t0\t"+c.String()+"\n"); err != nil {
+			ch <- ans{"", err}
+			return
+		}
+		line, err := k.out.ReadString('\n')
+		ch <- ans{line, err}
+	}()
+	select {
+	case a := <-ch:
+		if a.err == nil {
+			parts := strings.SplitN(strings.TrimRight(a.line, "\n"), "\t", 2)
+			if len(parts) == 2 {
+				if o, perr := ParseSexp(parts[1]); perr == nil {
+					return o
+				}
+			}
+			k.stop()
+			c02kid = nil
+			return L(KV("bad", A("unreadable answer of the reader process")))
+		}
+		// the child is gone
+		k.cmd.Wait()
+		msg := k.errbuf.fatal()
+		c02kid = nil
+		return c02died(text, "panic", "the reader process died: "+msg)
+	case <-time.After(limit):
+		k.stop()
+		c02kid = nil
+		return c02died(text, "hang", fmt.Sprintf("the reader process did not answer within %v", limit))
+	}
+}
 
 // C02: tree readers are total.
 //
@@ -225,6 +375,9 @@ func c02(c *Sexp) *Sexp {
 	v := c.Get("text")
 	if v == nil || v.IsList {
 		return L(KV("bad", A("no text")))
+	}
+	if os.Getenv("C02_CHILD") == "" {
+		return c02parent(c, v.Atom)
 	}
 	env := &c02env{text: v.Atom, data: []byte(v.Atom), timeout: 5 * time.Second, eofCap: 2000000, dumpMax: 20000}
 	if c.Get("timeout_ms") != nil {
